@@ -24,7 +24,7 @@ name, w, wo, rc, viol, what = sys.argv[1:7]
 p = 'seeded/%s/meta.json' % name
 m = json.load(open(p))
 m['property'] = name.rsplit('_', 1)[0]
-res = 'caught' if rc == '1' and viol else 'MISSED'
+res = 'caught' if rc == '1' and viol else ('neutralised (a later fix: commit made this change harmless: its demo passes with the change on HEAD; the check is rightly silent)' if w == '0' else 'MISSED')
 m['confirmed_by_integrator'] = {'demo_with_change_rc': int(w), 'demo_without_change_rc': int(wo),
     'check_result': res, 'caught_by': (viol + ' ' + what).strip()[:300],
     'how': 'patch applied to a fresh worktree of /repo HEAD; VERIF_REPO=<wt> ./check %s (quick tier)' % m['property']}
